@@ -301,8 +301,10 @@ def check_main(pid, tier, seed, nshards=None, budget_s=None, jobs=None):
         assumptions=list(getattr(mod, "ASSUMPTIONS", [])) + [
             "the independent oracles in /verif/vlib (reference coder, walk oracle, fixed-point oracle, VT formula) are "
             "correct", "CPython %s / numpy as installed in /venv" % sys.version.split()[0]])
-    os.makedirs(os.path.join(VERIF, "evidence"), exist_ok=True)
-    with open(os.path.join(VERIF, "evidence", pid + ".json"), "w") as f:
+    # runs against a scratch copy (self-tests with VERIF_REPO set) must not overwrite the evidence of /repo
+    evdir = os.path.join(VERIF, "evidence" if REPO == "/repo" else ".scratch-evidence")
+    os.makedirs(evdir, exist_ok=True)
+    with open(os.path.join(evdir, pid + ".json"), "w") as f:
         json.dump(evidence, f, indent=1, default=str)
         f.write("\n")
 
